@@ -210,9 +210,21 @@ def install_builtins(reg: Registry):
         s = V.as_seq(ex, args[0], node)
         return z3.Not(ex.ctx.forall_range(0, s.n, lambda k: z3.Not(_asbool(V.truth(ex, s.item(k))))))
 
+    @b("bool")
+    def _bool(ex, args, kw, node):
+        if not args:
+            return False
+        if len(args) != 1 or kw:
+            raise U("bool() with these arguments", node)
+        return V.truth(ex, args[0])         # the truth value as Python defines it for the kind of value (bool, number, sequence, array)
+
     @b("int")
     def _int(ex, args, kw, node):
         v = args[0]
+        if isinstance(v, bool):
+            return int(v)
+        if isinstance(v, z3.BoolRef):
+            return z3.If(v, 1, 0)
         if isinstance(v, (int, float, str)):
             return int(v)
         if isinstance(v, z3.ArithRef) and v.is_int():
